@@ -31,7 +31,8 @@ META = {
                   "event data -2..1100.",
     "explanation": "symbolic execution of constructors, add_to_frame and from_frame; 'rejected => illegal', "
                    "'accepted => legal' and field equalities are unsat queries per path",
-    "bounds": ["every table row x destination kinds (gear: short/group/broadcast/unaddressed/int; device: "
+    "bounds": ["device/instance events are decoded once through the (then empty) map object before the entry is added",
+               "every table row x destination kinds (gear: short/group/broadcast/unaddressed/int; device: "
                "short/group/broadcast/unaddressed) x 9 instance kinds",
                "numbers symbolic over ranges extending 2 below and several above the legal limits "
                "(thorough: 70000 below and above)",
